@@ -1021,6 +1021,14 @@ func crashes(c *vk.C, dir string) {
 				cold := cy > 0 && ji%2 == 1
 
 				run, err := runChild(path, jb.marshaler, jb.seed, from, segment, kind, killK, cold)
+				if err == nil && run.fatal != "" && strings.HasPrefix(kind, "STRACEERR-") && strings.Contains(run.fatal, "input/output error") {
+					// the injected EIO hit bbolt while it opened (or initialised) the file: nothing was acknowledged; a file that was
+					// being created is bbolt's business, so the job ends here
+					c.Count("bbolt_internal_rejections_at_open", 1)
+
+					return
+				}
+
 				if err != nil || run.fatal != "" {
 					c.Violation("crash-worker-failed", map[string]any{"err": fmt.Sprint(err), "fatal": run.fatal, "history": history})
 
